@@ -240,6 +240,13 @@ def gen_plan(prop, r, tier, run):
                     r.shuffle(freqs)
                     ex = [k for k, f in zip(keys, freqs) for _ in range(f)]
                     r.shuffle(ex)
+                if r.chance(0.25) and src['form'] == 'list':
+                    # characters whose class depends on the dialect (non-
+                    # ASCII decimal digits), seen by both callers
+                    extra = [r.pick(['٣٤', '५', '５５', 'a٣', '३-1'])
+                             for _ in range(r.randint(1, 2))]
+                    src['examples'] = list(src['examples']) + extra
+                    ex = ex + extra
                 op['examples'] = ex
                 op['info'] = src.get('info', {})
                 if op['form'] == 'dict':
@@ -248,6 +255,12 @@ def gen_plan(prop, r, tier, run):
                 if op['form'] == 'series':
                     op['examples'] = [s.replace('\x00', '\x01')
                                       if s is not None else s for s in ex]
+                elif op['opts'].get('dialect') == src['opts'].get(
+                        'dialect') and r.chance(0.6):
+                    # ... and under another dialect than the first caller
+                    op['opts']['dialect'] = r.pick(
+                        [d for d in ('perl', 'portable', 'grep')
+                         if d != src['opts'].get('dialect')])
             if prop == 'C13':
                 op['tagpair'] = True
                 op['opts'].pop('tag', None)
@@ -278,6 +291,11 @@ def gen_c14(r, clients):
         tgt['form'] = 'list'
         del tgt['freqs']
     tgt['group'] = 0
+    if r.chance(0.2):
+        # characters whose class depends on the dialect
+        tgt['examples'] = list(tgt['examples']) + [
+            r.pick(['٣٤', '५', '５５', 'a٣', '३-1'])
+            for _ in range(r.randint(1, 2))]
 
     def variant(name, **changes):
         v = copy.deepcopy(tgt)
